@@ -107,7 +107,25 @@ fn read_back<R: BufRead + std::fmt::Debug + Send>(cfg: &Cfg, key: &SignedSecretK
         Pattern::ReadToEnd => {
             msg.read_to_end(&mut out).map_err(|e| e.to_string())?;
         }
-        Pattern::Fixed(n) | Pattern::BufRead(n) | Pattern::PollOn(n) => {
+        Pattern::PollOn(n) => {
+            // the consumer ignores up to six errors and keeps reading (a one-shot source fault may
+            // be transient): whatever it ends up with when it sees a 0-byte read is the result
+            let mut buf = vec![0u8; n.max(1)];
+            let mut errors = 0;
+            loop {
+                match msg.read(&mut buf) {
+                    Ok(0) => break,
+                    Ok(k) => out.extend_from_slice(&buf[..k]),
+                    Err(e) => {
+                        errors += 1;
+                        if errors > 6 {
+                            return Err(e.to_string());
+                        }
+                    }
+                }
+            }
+        }
+        Pattern::Fixed(n) | Pattern::BufRead(n) => {
             let mut buf = vec![0u8; n.max(1)];
             loop {
                 match msg.read(&mut buf) {
@@ -475,6 +493,19 @@ fn run_reader(ctx: &mut Ctx, key: &SignedSecretKey) {
                 let clean_full_at_eof_probe = matches!(&r, Ok(Ok((p, v))) if *p == data && *v);
                 ctx.oracle("reader_source_fault_surfaces", &site, &format!("{inp} fault@read#{k}/{calls}"), !clean_short && (matches!(r, Ok(Err(_))) || (clean_full_at_eof_probe && k + 2 >= calls)), &format!("{:?}", r.as_ref().map(|x| x.as_ref().map(|(p, v)| (p.len(), *v)))));
                 ctx.stat("reader:source_fault");
+                // the same fault with a consumer that polls on after errors: a clean end must mean the
+                // complete, correct payload (the source recovered), never a shorter or different one,
+                // and never a panic
+                if k % 3 == 0 || ctx.thorough() {
+                    let r = guarded(|| read_back(cfg, key, BufReader::with_capacity(64, ScheduledReader::new(&msg, &[]).with_fault(k)), Pattern::PollOn(61)));
+                    let bad = match &r {
+                        Ok(Ok((p, v))) => *p != data || !*v,
+                        Ok(Err(_)) => false,
+                        Err(_) => true,
+                    };
+                    ctx.oracle("fault_then_poll_never_clean_short", &site, &format!("{inp} fault@read#{k}/{calls} pat=PollOn(61)"), !bad, &format!("{:?}", r.as_ref().map(|x| x.as_ref().map(|(p, v)| (p.len(), *v)))));
+                    ctx.stat("reader:source_fault_poll");
+                }
             }
         }
     }
